@@ -54,3 +54,14 @@ Example C13_nonvacuous :
                mkstep "bar foo" false None (mkvalue true true "float32" [4; 5]%Z)] None
   = "TypeCheckError params blamed=1 S{foo=3} V{}".
 Proof. vm_compute. reflexivity. Qed.
+
+(* raised iff violated: with C02, no TypeCheckError when one consistent assignment exists, and one (or a propagated
+   exception) when none does *)
+From JT Require Import proofs.TwoPassFacts.
+Theorem C13_raised_iff_no_consistent_assignment : forall lbl st params r args vd s',
+  Forall (fun u => wf_annot (fst u)) (params ++ [r]) ->
+  walk lbl st (params ++ [r]) (push_memo [] args) = (vd, s') -> (forall x, vd <> Raise x) ->
+  (fst (call_new lbl st params (Some r) (push_memo [] args)) = CROk <->
+   exists e, Forall (full_sat lbl st args e) (params ++ [r])).
+Proof. exact call_succeeds_iff_consistent_assignment. Qed.
+Print Assumptions C13_raised_iff_no_consistent_assignment.
